@@ -2,6 +2,7 @@ package c10
 
 import (
 	"os"
+	"strconv"
 	"strings"
 	"testing"
 	"time"
@@ -13,6 +14,7 @@ import (
 )
 
 func fp(f float64) *float64 { return &f }
+func ip(i int) *int           { return &i }
 
 func probeDesign() *m.Design {
 	mk := func(v *m.Validation, k m.Kind) *m.Attr { a := m.Prim(k); a.V = v; return a }
@@ -25,6 +27,9 @@ func probeDesign() *m.Design {
 			{Name: "min", Payload: mk(&m.Validation{Min: fp(5)}, m.Int), GRPC: &m.GRPCEndpoint{}},
 			{Name: "big", Payload: rt.Obj(&m.Field{Name: "n", Attr: m.Prim(m.Int), Tag: 1}, &m.Field{Name: "u", Attr: m.Prim(m.UInt), Tag: 2}), GRPC: &m.GRPCEndpoint{}},
 			{Name: "viewed", Result: m.UserRef("Pair"), GRPC: &m.GRPCEndpoint{}},
+			// two arrays of maps of the same protocol buffer shape, only the second restricts its keys
+			{Name: "wrapa", Payload: rt.Obj(&m.Field{Name: "count", Attr: arr(&m.Attr{Type: &m.Type{Kind: m.Map, Key: m.Prim(m.String), Val: m.Prim(m.Int32)}}), Tag: 1}), GRPC: &m.GRPCEndpoint{}},
+			{Name: "wrapb", Payload: rt.Obj(&m.Field{Name: "zone", Attr: arr(&m.Attr{Type: &m.Type{Kind: m.Map, Key: mk(&m.Validation{MaxLen: ip(1)}, m.String), Val: m.Prim(m.Int32)}}), Tag: 1}), GRPC: &m.GRPCEndpoint{}},
 			{Name: "coll", Payload: rt.Obj(&m.Field{Name: "tags", Attr: arr(m.Prim(m.String)), Required: true, Tag: 1}, &m.Field{Name: "x", Attr: m.Prim(m.String), Tag: 2}), GRPC: &m.GRPCEndpoint{}},
 		}},
 		{Name: "health", HasHTTP: true, Methods: []*m.Method{{Name: "ping", HTTP: &m.HTTPEndpoint{Routes: []m.Route{{Verb: "GET", Path: "/ping"}}}}}}}}
@@ -52,6 +57,16 @@ func TestProbes(t *testing.T) {
 	rt.Probe("C10-primitive-payload-or-result-validation-not-enforced", func() (bool, string) {
 		o := do("min", value.Int(4))
 		return o.StubCalls == 1, "Payload(Int, Minimum(5)) called with 4: the service method ran and received " + o.Received.Canon()
+	})
+	rt.Probe("C10-nested-collection-wrappers-share-one-validator", func() (bool, string) {
+		long := value.Object(f("count", value.Array(value.MapOf(value.Str("long key"), value.Int(1)))))
+		o := do("wrapa", long)
+		o2 := do("wrapb", value.Object(f("zone", value.Array(value.MapOf(value.Str("long key"), value.Int(1))))))
+		e := ""
+		if o.ClientErr != nil {
+			e = o.ClientErr.Text
+		}
+		return o.StubCalls != 1 || o2.StubCalls != 0, "count: ArrayOf(MapOf(String, Int32)) sent with the key \"long key\" next to zone: ArrayOf(MapOf(String(MaxLength 1), Int32)): method ran " + itoa(o.StubCalls) + " time(s) " + e + "; the same key in zone: method ran " + itoa(o2.StubCalls) + " time(s)"
 	})
 	rt.Probe("C10-int-and-uint-carried-as-32-bit", func() (bool, string) {
 		o := do("big", value.Object(f("n", value.Int(1<<40)), f("u", value.Uint(1<<40))))
@@ -108,3 +123,5 @@ func TestProbes(t *testing.T) {
 		return !ok, "result type rendered with the view \"tiny\" (required attribute title is outside the view): client got " + o.Result.Canon() + " error " + ce + " grpc code " + o.GRPCCode
 	})
 }
+
+func itoa(i int) string { return strconv.Itoa(i) }
